@@ -22,6 +22,7 @@ from modelx.core.errors import DeletedObjectError, FormulaError
 from modelx.core.model import Model
 from modelx.core.space import UserSpace, ItemSpace, DynamicSpace
 from modelx.core.cells import Cells
+from modelx.core.reference import ReferenceImpl
 
 PARAM_SRC = "lambda i: None"
 
@@ -200,7 +201,8 @@ def p_check(m, H, step, fails):
                         fail("residue", "handle %d (%s).%s holds a deleted object" % (i, h.fullname, label))
         elif isinstance(h, Cells):
             for k in list(h):
-                for lab, ns in (("preds", h.preds(k)), ("succs", h.succs(k))):
+                ka = k if isinstance(k, tuple) else (k,)
+                for lab, ns in (("preds", h.preds(*ka)), ("succs", h.succs(*ka))):
                     for n in ns:
                         if not valid(n.obj):
                             fail("residue", "handle %d (%s).%s(%r) lists a deleted cells" % (i, h.fullname, lab, k))
@@ -211,6 +213,94 @@ def p_check(m, H, step, fails):
         if n[0].interface._impl is not n[0]:
             fail("residue", "model.tracegraph has a node of a deleted object (%s)" % type(n[0]).__name__)
             break
+
+
+# --------------------------------------------------------------------------
+# reachability audit (implementation containers, trace graph, reference graph)
+# --------------------------------------------------------------------------
+def impl_name(x):
+    try:
+        return x.get_fullname()
+    except BaseException:
+        return "<%s>" % type(x).__name__
+
+
+def is_valid_impl(x):
+    return x.interface._impl is x
+
+
+def deep_audit(m, H, step, fails):
+    def fail(kind, detail):
+        fails.append({"step": step, "kind": kind, "detail": detail})
+
+    mi = m._impl
+    reach = {}          # id(impl) -> impl
+    statics, dynamics = [], []
+
+    def visit_space(s, parent):
+        if id(s) in reach:
+            return
+        reach[id(s)] = s
+        if not is_valid_impl(s):
+            fail("residue", "a container reachable from the model holds the deleted space %s" % impl_name(s))
+            return
+        if s.parent is not parent:
+            fail("residue", "%s is held by a container of %s, its parent is %s" % (impl_name(s), impl_name(parent), impl_name(s.parent)))
+        (dynamics if s.is_dynamic() else statics).append(s)
+        for c in s.cells.values():
+            reach[id(c)] = c
+            if not is_valid_impl(c):
+                fail("residue", "%s.cells holds a deleted cells" % impl_name(s))
+            elif c.parent is not s:
+                fail("residue", "%s.cells holds a cells of %s" % (impl_name(s), impl_name(c.parent)))
+        for t in s.named_spaces.values():
+            visit_space(t, s)
+        for key, t in list(s.param_spaces.items()):
+            visit_space(t, s)
+
+    for s in mi.spaces.values():
+        visit_space(s, mi)
+
+    # kept handles
+    for lab, h in H.items():
+        if isinstance(h, Model) or not is_alive(h):
+            continue
+        if id(h._impl) not in reach:
+            fail("orphan", "handle %s (%s) is alive but not reachable from the model through cells / spaces / "
+                           "param_spaces" % (lab, h.fullname))
+    # registrations under the base
+    for s in statics:
+        for d in s._dynamic_subs:
+            if id(d) not in reach or not is_valid_impl(d):
+                fail("residue", "%s._dynamic_subs keeps the dynamic space %s that is %s"
+                     % (impl_name(s), impl_name(d), "deleted" if not is_valid_impl(d) else
+                        "alive but contained in a discarded ItemSpace (unreachable from the model)"))
+    for d in dynamics:
+        b = d._dynbase
+        if id(b) not in reach or not is_valid_impl(b):
+            fail("copy-of-deleted", "the dynamic space %s is alive, the space it was built from is deleted" % impl_name(d))
+        elif not any(x is d for x in b._dynamic_subs):
+            fail("residue", "the dynamic space %s is not registered in _dynamic_subs of its base %s" % (impl_name(d), impl_name(b)))
+    # graphs
+    for n in mi.tracegraph.nodes:
+        if id(n[0]) not in reach:
+            fail("residue", "model.tracegraph has a node of %s, which is %s" % (
+                impl_name(n[0]), "deleted" if not is_valid_impl(n[0]) else "not reachable from the model"))
+            break
+    for n in mi.refgraph.nodes:
+        if isinstance(n, ReferenceImpl):
+            par = n.parent
+            if par is mi:
+                ok = mi.global_refs.get(n.name) is n
+            else:
+                ok = id(par) in reach and par.own_refs.get(n.name) is n
+            if not ok:
+                fail("residue", "the reference graph has a node of the reference %s, which is deleted or replaced" % impl_name(n))
+                break
+        elif isinstance(n, tuple):
+            if id(n[0]) not in reach:
+                fail("residue", "the reference graph has a node of %s, which is deleted or unreachable" % impl_name(n[0]))
+                break
 
 
 # --------------------------------------------------------------------------
@@ -561,6 +651,11 @@ def run_case(case):
             fails.append({"step": len(ops_out) - 1, "kind": "observe-crash",
                           "detail": "p_check: %s: %s" % (type(e).__name__, str(e)[:200])})
         try:
+            deep_audit(m, dict(enumerate(H)), len(ops_out) - 1, fails)
+        except BaseException as e:
+            fails.append({"step": len(ops_out) - 1, "kind": "observe-crash",
+                          "detail": "deep_audit: %s: %s" % (type(e).__name__, str(e)[:200])})
+        try:
             if want_full:
                 st["full"] = observe_full(m, H)
         except BaseException as e:
@@ -623,4 +718,5 @@ def main():
     print("@@RESULT " + json.dumps(out))
 
 
-main()
+if __name__ == "__main__":
+    main()
